@@ -127,6 +127,24 @@ def parseRhs (parser : P Expr) (lhs : Expr) (op : Operator) : P Expr := fun s =>
   | .err k s' => .err k s'
   | .panic e => .panic e
 
+/-- one `[ index ]` of `Variable::parse` (the index expression parser is a parameter) -/
+def accessParser (pe : Option (Ref Expr) → P (Ref Expr)) : P (Option (Ref Expr) × AstInfo) :=
+  info (bind (tk ctx .LBracket) (fun _ =>
+    bind (Spl.Parse.expect none pe (.ExpectedToken (chars "expression"))) (fun idx =>
+      bind (Spl.Parse.expect none (inc (tk ctx .RBracket)) (.MissingClosing ']')) (fun _ =>
+        pure' idx))))
+
+/-- `( expression )` of `parse_bracketed` (the expression parser is a parameter) -/
+def bracketedInner (pc : P Expr) : P (AstInfo × Option Expr) :=
+  bind (info (tk ctx .LParen)) (fun lp =>
+    bind (Spl.Parse.expect none (inc pc) (.ExpectedToken (chars "expression"))) (fun e =>
+      bind (Spl.Parse.expect none (inc (tk ctx .RParen)) (.MissingClosing ')')) (fun _ =>
+        pure' (lp.2, e))))
+
+/-- the fold of `Variable::parse` over the parsed accesses -/
+def accessStep (vinfo : AstInfo) (arr : Var) (a : Option (Ref Expr) × AstInfo) : Var :=
+  Var.access arr (OptExpr.ofOption a.1) (AstInfo.extendRange a.2 vinfo)
+
 mutual
   /-- `Variable::parse`. -/
   def parseVariable : Nat → Option Var → P Var
@@ -137,25 +155,15 @@ mutual
         | .err k s' => .err k s'
         | .panic e => .panic e
         | .ok s1 (v, vinfo) =>
-          let access : P (Option (Ref Expr) × AstInfo) :=
-            info (bind (tk ctx .LBracket) (fun _ =>
-              bind (Spl.Parse.expect none (refParse (parseExpression fuel)) (.ExpectedToken (chars "expression"))) (fun idx =>
-                bind (Spl.Parse.expect none (inc (tk ctx .RBracket)) (.MissingClosing ']')) (fun _ =>
-                  pure' idx))))
-          match many0 access (loopFuel ctx) s1 with
+          match many0 (accessParser ctx (refParse (parseExpression fuel))) (loopFuel ctx) s1 with
           | .err k s' => .err k s'
           | .panic e => .panic e
-          | .ok s2 accesses =>
-            .ok s2 (accesses.foldl (fun (arr : Var) (a : Option (Ref Expr) × AstInfo) =>
-              Var.access arr (OptExpr.ofOption a.1) (AstInfo.extendRange a.2 vinfo)) v))
+          | .ok s2 accesses => .ok s2 (accesses.foldl (accessStep vinfo) v))
 
   def parseBracketed : Nat → P Expr
     | 0 => fun _ => .panic ⟨"fuel"⟩
     | fuel + 1 => fun s =>
-      match info (bind (info (tk ctx .LParen)) (fun lp =>
-              bind (Spl.Parse.expect none (inc (parseComparison fuel)) (.ExpectedToken (chars "expression"))) (fun e =>
-                bind (Spl.Parse.expect none (inc (tk ctx .RParen)) (.MissingClosing ')')) (fun _ =>
-                  pure' (lp.2, e))))) s with
+      match info (bracketedInner ctx (parseComparison fuel)) s with
       | .ok s1 ((lpInfo, e), i) =>
         let ep := lpInfo.range.hi
         .ok s1 (.bracketed (e.getD (.error { range := ⟨ep, ep⟩ })) i)
@@ -253,7 +261,7 @@ def typeFuel : Nat := ctx.toks.size + 2
 
 def refTypeExpr : Option (Ref TypeExpr) → P (Ref TypeExpr) := refParse (parseTypeExpr ctx (typeFuel ctx))
 
-def exprFuel : Nat := 4 * ctx.toks.size + 16
+def exprFuel : Nat := 8 * ctx.toks.size + 16
 
 def refExpr : Option (Ref Expr) → P (Ref Expr) := refParse (parseExpression ctx (exprFuel ctx))
 
